@@ -441,6 +441,8 @@ VERIF_FAIL_MESSAGES = (
     "termination not proved",
     "fails to satisfy callee.requires",
     "Call to non-static function fails",
+    "precondition not met",
+    "unable to prove post-condition of closure",
 )
 
 
